@@ -111,7 +111,7 @@ class MultiDomainGrid(Grid):
         if len(self.grid_list) == 1 and self.num_domains is not None:
             return self.grid_list[0].size ** self.num_domains
         else:
-            return np.prod([grid.size for grid in self.grid_list])
+            return int(np.prod([int(grid.size) for grid in self.grid_list], dtype=object))
 
     @property
     def weights(self):
